@@ -25,7 +25,7 @@ ID = "C19"
 LEVEL = "exploration"
 MOD = "mc.props.c19"
 
-VIEWBOXES = [(0, 0, 100, 100), (-20, 30, 60, 40), (10.5, 10.5, 33.3, 77.7)]
+VIEWBOXES = [(0, 0, 100, 100), (-20, 30, 60, 40), (10.5, 10.5, 33.3, 77.7), (-20, -15, 60, 40)]
 # unit shapes in a 1x1 box centred on the origin; scaled to 0.36 x viewBox size
 UNIT = {
     "rect": '<rect x="-.5" y="-.4" width="1" height=".8" fill="red"/>',
@@ -292,7 +292,7 @@ def cases(tier, seed):
     pos = [(0.0, 0.5), (0.5, 0.5), (1.0, 1.0), (1.42, 0.5)]
     for k, s in enumerate(list(UNIT)[:5]):
         for p in pos:
-            yield {"fam": "cli", "vb": list(VIEWBOXES[k % 3]), "items": [[s, *p]]}
+            yield {"fam": "cli", "vb": list(VIEWBOXES[k % 4]), "items": [[s, *p]]}
     shapes = bbox_shapes()
     docs = [source_doc(VIEWBOXES[0], [("rect", 0.2, 0.3), ("cubic", 0.8, 0.6)]), source_doc(VIEWBOXES[1], [("circle", 0.0, 0.0), ("tri", 1.0, 1.0), ("ring", 0.5, 1.42)])]
     for i in range(0, len(shapes), 60):
